@@ -10,8 +10,10 @@
    capacity cap, files as in disk) in mode md (default / --show-autofix / --autofix)
    by SOME history; convert stands for convertToLogicalLines, is_mk for the
    ".mk" suffix test; both are arbitrary. *)
-From PV Require Import Lib.Bytes Model.FileCache Spec.FreshLoad
-  Proofs.FileCacheWf Proofs.FileCacheInv Proofs.FileCache Proofs.FileCacheSim Proofs.FileCachePrivate.
+From PV Require Import Lib.Bytes Model.FileCache Model.FileCacheLines Spec.FreshLoad
+  Proofs.FileCacheWf Proofs.FileCacheInv Proofs.FileCache Proofs.FileCacheSim Proofs.FileCachePrivate
+  Proofs.FileCacheModes.
+From PV Require Model.Lines Spec.LinesSpec.
 From Coq Require Import Permutation.
 Open Scope N_scope.
 
@@ -92,6 +94,72 @@ Theorem C20_cache_unobservable :
   st_disk (fst (fst (run convert no_mk md (init_state cap disk) h))).
 Proof. exact cache_unobservable. Qed.
 Print Assumptions C20_cache_unobservable.
+
+(* TRANSPARENCY ACROSS LOAD MODES (round 5).  The model run with the C09 model of
+   convertToLogicalLines (Model/FileCacheLines.v: convert_lines raw o =
+   Lines.convert_to_logical_lines raw (o & Makefile != 0)), so that the lines of a
+   Load depend on the REQUESTED options.  After any history -- loads of any files
+   under any of the 16 option sets in any order (Makefile mode then plain mode of
+   the same file, plain then Makefile, sub- and supersets), fixes, saves, failing
+   saves, modifications, overflow -- under the same protocol guard as above:
+   Load(f, o) returns nil exactly when f is unreadable or empty with NotEmpty, and
+   otherwise exactly the logical lines of the file's present content converted in
+   the mode that THIS call asks for (mode_read, Proofs/FileCacheModes.v, spelled
+   out with Lines.convert_to_logical_lines; the conversion never panics), no fix
+   attached.  What an earlier Load of the file asked for does not matter. *)
+Theorem C20_load_transparent_mixed_modes :
+  forall is_mk md cap disk s fn o s' r, (1 <= cap)%nat -> reach convert_lines is_mk md cap disk s ->
+  guard_step s (OLoad fn o) = true ->
+  load convert_lines is_mk s fn o = Ok (s', r) ->
+  match map_get (key fn) (st_disk s) with
+  | None => load_obs s' r = None
+  | Some raw =>
+    if FileCache.is_empty raw && has_opt o NotEmpty then load_obs s' r = None
+    else exists ls e,
+        Model.Lines.convert_to_logical_lines raw (has_opt o Makefile) = Model.Lines.Ok (ls, e) /\
+        load_obs s' r = Some (map lobs_of_line ls)
+  end /\ st_disk s' = st_disk s.
+Proof. exact load_transparent_mixed_modes. Qed.
+Print Assumptions C20_load_transparent_mixed_modes.
+
+(* ... in particular a plain-mode Load (no Makefile bit) returns one logical line
+   per physical line, line k numbered k, Text = the physical line without its
+   line feed -- also for a *.mk file with continuation lines that is in the cache
+   from a Makefile-mode load (C09's clause for plain mode, through the cache) *)
+Theorem C20_plain_load_one_line_per_physical_line :
+  forall is_mk md cap disk s fn o s' r obs, (1 <= cap)%nat -> reach convert_lines is_mk md cap disk s ->
+  guard_step s (OLoad fn o) = true ->
+  has_opt o Makefile = false ->
+  load convert_lines is_mk s fn o = Ok (s', r) ->
+  load_obs s' r = Some obs ->
+  Forall (fun ob : lobs => let '(no, text, raw, fx) := ob in
+            exists p, raw = [p] /\ text = Spec.LinesSpec.content p /\ fx = false) obs /\
+  (forall k ob, nth_error obs k = Some ob -> fst (fst (fst ob)) = 1 + N.of_nat k).
+Proof. exact plain_load_one_line_per_physical_line. Qed.
+Print Assumptions C20_plain_load_one_line_per_physical_line.
+
+(* the options are part of the cache key EXACTLY: a Load is served by the cache
+   (hits goes up by one; otherwise it stays) iff the file is in the mapping with an
+   entry that was stored with exactly the requested options -- for every state,
+   every convert *)
+Theorem C20_hit_same_options : forall convert is_mk s fn o s' r,
+  load convert is_mk s fn o = Ok (s', r) ->
+  (c_hits (st_cache s') = c_hits (st_cache s) \/ c_hits (st_cache s') = c_hits (st_cache s) + 1) /\
+  (c_hits (st_cache s') = c_hits (st_cache s) + 1 <->
+   exists eid, map_get (key fn) (c_map (st_cache s)) = Some eid /\
+               e_opts (entry_at (c_store (st_cache s)) eid) = o).
+Proof. exact hit_same_options. Qed.
+Print Assumptions C20_hit_same_options.
+
+(* why exact equality is needed: the variant of Get whose hit condition is
+   `entry.options&options == options` (Model/FileCacheLines.v: get_superset,
+   load_superset; otherwise the same Load) is NOT transparent, already for two
+   loads on a fresh G without any fix: f.mk = "A= \\\n b\nC= d\n"; Load(f, Makefile);
+   Load(f, 0) is served the two joined lines instead of the three physical ones *)
+Definition C20_superset_hit_variant : Prop := superset_hit_transparent.
+Theorem C20_superset_hit_refuted : ~ C20_superset_hit_variant.
+Proof. exact superset_hit_refuted. Qed.
+Print Assumptions C20_superset_hit_refuted.
 
 (* The full statement (no guard) is FALSE of the faithful model: FileCache.Put keeps
    the caller's *Lines, ReplaceAt edits Line.Text of those objects in every mode,
@@ -251,3 +319,16 @@ Example C20_failed_save_example :
   nth 3 (snd (fst failed_save_run)) ObsBad = ObsLoad (fresh_read convert_plain wit_disk (0, 0) 4) /\
   fresh_read convert_plain wit_disk (0, 0) 4 <> None.
 Proof. vm_compute. repeat split; try reflexivity. discriminate. Qed.
+
+(* mixed modes on the faithful model: Makefile then plain, plain then Makefile of a
+   file with a continuation line: each Load shows the lines of ITS mode (they
+   differ), no hit; the same options twice: one hit *)
+Example C20_mixed_modes_example :
+  snd (fst (modes_run 4 0)) =
+    [ObsLoad (fresh_read convert_lines modes_disk (0, 0) 4); ObsLoad (fresh_read convert_lines modes_disk (0, 1) 0)] /\
+  snd (fst (modes_run 0 4)) =
+    [ObsLoad (fresh_read convert_lines modes_disk (0, 0) 0); ObsLoad (fresh_read convert_lines modes_disk (0, 1) 4)] /\
+  fresh_read convert_lines modes_disk (0, 0) 4 <> fresh_read convert_lines modes_disk (0, 0) 0 /\
+  c_hits (st_cache (fst (fst (modes_run 4 0)))) = 0 /\
+  c_hits (st_cache (fst (fst (modes_run 4 4)))) = 1.
+Proof. exact modes_example. Qed.
